@@ -33,6 +33,11 @@ PartsIndexViol(t) ==
     V(\A i \in 1..Len(t.parts) : IdxOK(t.parts[i].vmap, t.nv), "PartitionVertexMapValid")
     \cup V(\A i \in 1..Len(t.parts) : TrisOK(t.parts[i].tris, PartIdxLimit(t, t.parts[i])), "PartitionTrianglesValid")
     \cup V(\A i \in 1..Len(t.parts) : TrisOK(t.parts[i]["true"], t.nv), "PartitionTrueTrianglesValid")
+    \* the cached shape-indexed triangles of a partition, when present, are its triangles seen through its vertex map
+    \cup V(\A i \in 1..Len(t.parts) : LET p == t.parts[i] IN
+              (Len(p["true"]) = 0 \/ p.nstrips > 0 \/ ~TrisOK(p.tris, PartIdxLimit(t, p))) \/
+              (Len(p["true"]) = Len(p.tris) /\ \A k \in 1..Len(p.tris) : \A c \in 1..3 :
+                    p["true"][k][c] = (IF t.mapped THEN p.vmap[p.tris[k][c] + 1] ELSE p.tris[k][c])), "PartitionTrueTrianglesAgree")
     \cup V(\A i \in 1..Len(t.parts) : \A s \in 1..Len(t.parts[i].strips) : IdxOK(t.parts[i].strips[s], PartIdxLimit(t, t.parts[i])), "PartitionStripsValid")
     \cup V(Len(t.triParts) = 0 \/ (Len(t.triParts) = Len(t.tris) /\ \A k \in 1..Len(t.triParts) : t.triParts[k] < Len(t.parts)), "TriPartsAligned")
     \cup V(\A i \in 1..Len(t.parts) : (t.parts[i].nvw \in {0, Len(t.parts[i].vmap)}) /\ (t.parts[i].nbi \in {0, Len(t.parts[i].vmap)}), "PartitionPerVertexArraysAgree")
